@@ -418,6 +418,13 @@ pub struct Interp {
     spos: HashMap<usize, SPos>,
     iter_q: HashMap<usize, IterQ>,
     sorter_inserted: Vec<Entry>,
+    /// C08 on the implementation alone: bytes / entries inserted since the last spill, what was seen last
+    svol: usize,
+    scount: usize,
+    ssmall: bool,
+    sfits: bool,
+    screated_seen: u64,
+    selen_seen: usize,
     pub oracle_failures: u64,
     pub stats: BTreeMap<String, u64>,
 }
@@ -470,6 +477,12 @@ impl Interp {
             spos: HashMap::new(),
             iter_q: HashMap::new(),
             sorter_inserted: Vec::new(),
+            svol: 0,
+            scount: 0,
+            ssmall: true,
+            sfits: true,
+            screated_seen: 0,
+            selen_seen: 0,
             oracle_failures: 0,
             stats: BTreeMap::new(),
         }
@@ -1574,6 +1587,12 @@ impl Interp {
         // drop any previous sorter first and forget the allocation events of earlier scenarios
         self.sorter = None;
         self.sorter_inserted.clear();
+        self.svol = 0;
+        self.scount = 0;
+        self.ssmall = true;
+        self.sfits = true;
+        self.screated_seen = 0;
+        self.selen_seen = 0;
         grenad::verif::take_alloc_trace();
         self.alloc_live.clear();
         {
@@ -1624,10 +1643,17 @@ impl Interp {
         let r = catch_unwind(AssertUnwindSafe(|| s.insert(&k, &v)));
         let f1 = match r {
             Ok(Ok(())) => {
+                let vol_bad = self.volume_oracle(&s, k.len() + v.len());
                 let st = self.sorter_state(&s);
                 self.sorter = Some(s);
                 self.sorter_inserted.push((k.clone(), v.clone()));
-                st
+                match vol_bad {
+                    Some(msg) => {
+                        self.oracle_failures += 1;
+                        format!("ORACLE-FAIL {}", msg)
+                    }
+                    None => st,
+                }
             }
             Ok(Err(e)) => {
                 let trace = grenad::verif::take_alloc_trace();
@@ -1647,6 +1673,42 @@ impl Interp {
         };
         let f1 = if impl_only { self.fault_oracle(f1, ops_before) } else { f1 };
         self.emit(line, f1, "-".into());
+    }
+
+    /// C08 evaluated on the implementation alone (the statement of `C08_volume_quarter` /
+    /// `C08_volume_noRealloc`, with the harness's own running sums): while every entry takes at most a
+    /// quarter of the budget, the bytes inserted since the last spill never exceed twice the budget; with
+    /// reallocation disabled and entries within the budget, entries plus 16 bytes each stay within it.
+    fn volume_oracle(&mut self, s: &AnySorter, size: usize) -> Option<String> {
+        let budget = self.scfg.thr.max(self.scfg.minmem);
+        let (_, _, bc, _) = s.fingerprint();
+        let created = self.sctl.borrow().created;
+        // a spill empties the buffer before the entry goes in: the instrumented creator saw a `create`,
+        // or (stock creators) the number of entries held did not simply grow by one
+        let spilled = if s.is_custom() { created > self.screated_seen } else { bc != self.selen_seen + 1 };
+        self.screated_seen = created;
+        self.selen_seen = bc;
+        if spilled {
+            self.svol = size;
+            self.scount = 1;
+        } else {
+            self.svol += size;
+            self.scount += 1;
+        }
+        if 16 + size > budget / 4 {
+            self.ssmall = false;
+        }
+        if 16 + size > budget {
+            self.sfits = false;
+        }
+        if self.scfg.realloc {
+            if self.ssmall && self.scfg.init <= budget && budget >= 16 && self.svol > 2 * budget {
+                return Some(format!("{}_bytes_inserted_since_the_last_spill_with_budget_{}", self.svol, budget));
+            }
+        } else if self.sfits && self.svol + 16 * self.scount > budget + 15 {
+            return Some(format!("{}_bytes_in_{}_entries_since_the_last_spill_with_budget_{}_and_no_realloc", self.svol, self.scount, budget));
+        }
+        None
     }
 
     /// Impl-only oracle for chunk-storage faults: the call during which the armed fault fired
